@@ -89,6 +89,7 @@ func plan(c *Ctx, seeds []*Seed, pc planCfg) []Case {
 			cases = append(cases, Case{Entry: n, Data: m.data, FI: f, Seed: s.Name, Mut: m.mut, Fam: s.Fam, Cost: s.CostMs})
 		}
 	}
+	classSeen := map[string]int{}
 	bySeedFam := map[string][]*Seed{}
 	for _, s := range seeds {
 		bySeedFam[s.Fam] = append(bySeedFam[s.Fam], s)
@@ -179,6 +180,32 @@ func plan(c *Ctx, seeds []*Seed, pc planCfg) []Case {
 			fm = fieldMutantsJ2K(s.Data, rng)
 		case famRLE:
 			fm = fieldMutantsRLE(s.Data, rng)
+		}
+		if !pc.thorough {
+			// quick tier: the first two seeds of every (codec, components) class keep all field
+			// mutants, the other geometries of the class a sixth (a twelfth for C09)
+			cls := s.Name
+			if i := strings.Index(cls, "-"); i > 0 {
+				cls = cls[:i]
+			}
+			cls += fmt.Sprintf("/%d", s.FI.SPP)
+			classSeen[cls]++
+			every := 1
+			if classSeen[cls] > 2 {
+				every = 6
+			}
+			if pc.forC09 {
+				every *= 2
+			}
+			if every > 1 {
+				var keep []mutant
+				for i, m := range fm {
+					if (i+si)%every == 0 {
+						keep = append(keep, m)
+					}
+				}
+				fm = keep
+			}
 		}
 		if div > 2 {
 			// slow streams: keep a fraction of the field mutants
@@ -400,7 +427,7 @@ func c09Sig(c *Case, r *Res, s uint64) (sig, what string) {
 func thin(cs []Case, budgetMs int64, rng *Rand) (kept []Case, dropped int) {
 	var total int64
 	for i := range cs {
-		if cs[i].Cost >= 3 {
+		if cs[i].Cost >= 2 {
 			total += cs[i].Cost
 		}
 	}
@@ -410,7 +437,7 @@ func thin(cs []Case, budgetMs int64, rng *Rand) (kept []Case, dropped int) {
 	p := float64(budgetMs) / float64(total)
 	seen := map[string]int{}
 	for i := range cs {
-		if cs[i].Cost >= 3 {
+		if cs[i].Cost >= 2 {
 			k := cs[i].Entry + "|" + cs[i].Mut
 			seen[k]++
 			if seen[k] > 3 && float64(rng.U64()>>11)/float64(1<<53) > p {
@@ -458,14 +485,14 @@ func execute(c *Ctx, cases []Case, st *runState, confirmTimeouts bool, on func(c
 			cases = cases[:n]
 		}
 	}
-	waves := 8
+	waves := 12
 	per := len(cases)/waves + 1
 	for lo := 0; lo < len(cases); lo += per {
 		hi := min(lo+per, len(cases))
 		var batch []Case
 		for i := lo; i < hi; i++ {
 			k := cases[i].Entry + "|" + cases[i].Mut + "|" + cases[i].Seed
-			if st.timeouts[k] >= 2 || st.timeouts[cases[i].Entry+"|"+cases[i].Mut] >= 6 {
+			if st.timeouts[k] >= 1 || st.timeouts[cases[i].Entry+"|"+cases[i].Mut] >= 2 || st.timeouts[cases[i].Fam+"|"+cases[i].Mut] >= 5 {
 				c.R.Case("", false, "skipped.after-repeated-timeouts")
 				continue
 			}
@@ -506,6 +533,7 @@ func execute(c *Ctx, cases []Case, st *runState, confirmTimeouts bool, on func(c
 			if res[i].Status == "timeout" {
 				st.timeouts[batch[i].Entry+"|"+batch[i].Mut+"|"+batch[i].Seed]++
 				st.timeouts[batch[i].Entry+"|"+batch[i].Mut]++
+				st.timeouts[batch[i].Fam+"|"+batch[i].Mut]++
 				st.nTimeout++
 			}
 			on(&batch[i], &res[i])
@@ -814,9 +842,13 @@ func runC08(c *Ctx) {
 		if c.Thor {
 			pc.havocPer, pc.randomPerFam, pc.splices, pc.rleFI, pc.denseTrunc = 1500, 60000, 60000, 40000, 4000
 		}
+		runCorr(c, seeds)
+		if os.Getenv("PARSERS_ONLYCORR") != "" { // development aid
+			return
+		}
 		cases = plan(c, seeds, pc)
 		shuffle(cases, c.Rng.Fork())
-		budget := int64(16) * 25_000 // ms of estimated decode time: quick tier
+		budget := int64(16) * 15_000 // ms of estimated decode time: quick tier
 		if c.Thor {
 			budget = int64(16) * 600_000
 		}
@@ -1007,7 +1039,7 @@ func runC09(c *Ctx) {
 		c.R.Note("replay of %d recorded inputs from %s", len(cases), c.Replay)
 	} else {
 		seeds, _ := BuildCorpus(c.Rng.Fork(), c.Thor)
-		pc := planCfg{thorough: c.Thor, forC09: true, byteValPer: 40, havocPer: 20, randomPerFam: 1500, splices: 800, rleFI: 1500, denseTrunc: 400}
+		pc := planCfg{thorough: c.Thor, forC09: true, byteValPer: 15, havocPer: 8, randomPerFam: 1500, splices: 800, rleFI: 1500, denseTrunc: 100}
 		if c.Thor {
 			pc.byteValPer, pc.havocPer, pc.randomPerFam, pc.splices, pc.rleFI, pc.denseTrunc = 600, 400, 20000, 20000, 20000, 1500
 		}
@@ -1080,7 +1112,7 @@ func runC09(c *Ctx) {
 			cases = append(cases, all[i])
 		}
 		shuffle(cases, c.Rng.Fork())
-		budget := int64(16) * 20_000
+		budget := int64(16) * 10_000
 		if c.Thor {
 			budget = int64(16) * 500_000
 		}
